@@ -56,10 +56,11 @@ def apply_case(toks, mode):
         return toks
     out = []
     is_fmt = any(x.kind == "id" and x.text.lower() == "format" for x in toks[:2])
+    has_hollerith = is_fmt and re.search(r"\d\s*[hH]", "".join(x.pre + x.text for x in toks if x.kind != "str")) is not None
     for t in toks:
         text = t.text
-        if mode == 3 and is_fmt:
-            # a FORMAT specification may hold Hollerith text: left as written
+        if mode == 3 and is_fmt and has_hollerith:
+            # Hollerith text in a FORMAT specification: left as written
             out.append(Tok(t.kind, text, t.pre))
             continue
         if mode == 3:
@@ -261,7 +262,15 @@ def render_free(prog, ch, opts=None):
                         lay.lines.append(bl)
                         if bl.strip():
                             inner_comments.append((bl.strip(), len(lay.lines)))
-                    cur = " " * INDENTS[indent] + "&" + text[pos_choice:]
+                    rest = text[pos_choice:]
+                    # a second break further on: the line in between lies
+                    # wholly inside the literal
+                    pos2 = ch.choose(len(rest), "litpos2") if len(rest) > 2 else 0
+                    if pos2:
+                        lay.features.add("lit-break2")
+                        lay.lines.append(" " * INDENTS[indent] + "&" + rest[:pos2] + "&")
+                        rest = rest[pos2:]
+                    cur = " " * INDENTS[indent] + "&" + rest
                 else:
                     cur += text
             else:
@@ -415,7 +424,7 @@ def render_fixed(prog, ch, opts=None):
                 extra = ch.flag("fwrap")
             lit_cut = 0
             if t.kind == "str" and len(t.text) > 2 and opts.get("lit_cuts", True) and (j == 0 or _breakable(body, j, False)):
-                lit_cut = ch.choose(len(t.text), "fcut")  # cut before char k of the literal
+                lit_cut = ch.choose(min(len(t.text), 60), "fcut")  # cut before char k of the literal (k < 60: the head must fit on one line)
             if forced or extra:
                 if extra:
                     lay.features.add("wrap:%s|%s" % (_d(body[j - 1]), _d(t)))
@@ -450,6 +459,16 @@ def render_fixed(prog, ch, opts=None):
                 if t.text[lit_cut - 1] == "&":
                     lay.features.add("litcut-amp-in-col72")
                 cur = "     " + mark + t.text[lit_cut:]
+                while len(cur) > 72:
+                    # the rest of the literal is longer than a line: cut at
+                    # column 72 again (a line wholly inside the literal)
+                    lay.lines.append(cur[:72])
+                    lay.features.add("litcut2")
+                    if cur[71] == " ":
+                        lay.features.add("litcut-blank-in-col72")
+                    if cur[71] == "&":
+                        lay.features.add("litcut-amp-in-col72")
+                    cur = "     " + mark + cur[72:]
             else:
                 cur += piece
         tc = None
@@ -499,5 +518,7 @@ def focus_programs():
         out.append((name, wrap([S(t, "focus")]), {1}))
     out.append(("label-name-do", wrap([opener("do i = 1, n", "do", label="10", name="nm"), S("a = 'x!'", "assign"), closer("end do nm", "end_do")]), {1, 2}))
     out.append(("two-stmts", wrap([S("a = 'p!q'", "assign"), S("b = \"r's\" // 't'", "assign")]), {1, 2}))
+    out.append(("long-lit", wrap([S("s = '" + "abcdefghi!" * 10 + "'", "focus")]), {1}))
+    out.append(("format-scale", wrap([S("format (1x, 1pe12.4, 2p f8.3, 0pg10.3e2, i5, es9.2)", "format", label="100")]), {1}))
     out.append(("named-if-chain", wrap([S("a = 1", "assign"), opener("if (a > 0) then", "if_then", name="chk"), S("b = 2", "assign"), closer("end if chk", "end_if"), S("c = 3", "assign")]), {1, 2, 3, 4, 5}))
     return out
